@@ -9,12 +9,17 @@ RULE = ("TrustedIter.tla: (1) every adaptor lowered to the std combinators it is
         "machine of the library's TrustIter / Linspace under every interleaving of next / next_back - HintExact in every "
         "reachable state; every (adaptor, parameters, schedule) is replayed on the real iterator with the size hint read "
         "before consumption and after every step from either end; random pipelines of depth 1..6 are recorded and "
-        "validated against TraceIter.tla, where TLC infers the unlogged yield count")
+        "validated against TraceIter.tla, where TLC infers the unlogged yield count; TrustProof.tla proves the closed forms of "
+        "the lowered adaptors (ClosedFormsAgree ties them to the combinator trees) equal to the required length for EVERY "
+        "source length, lag, window and k, and the unsigned subtraction of the lowering guarded, with the TLA+ proof system")
 
 
 def run(ctx):
     q = ctx.quick
     r = ctx.tlc("iter", "MCIter", "MCIter_quick.cfg" if q else "MCIter_thorough.cfg", workers=8, timeout=3000)
+    # declared = yielded = required length for EVERY source length, lag, window and k (TLA+ proof system, on the closed
+    # forms that ClosedFormsAgree ties to the combinator trees)
+    ctx.tlaps("trust-proof", "TrustProof", needs=("TrustIdx",))
     binp = ctx.build("tvh-iter")
     ctx.harness("iter", binp, ["replay-iter", "--in", r["emitted"]])
     rg = ctx.tlc("gen", "MCGen", "MCGen_quick.cfg", workers=4, timeout=900)
